@@ -847,6 +847,10 @@ type c01Stringer struct{ s string }
 
 func (x c01Stringer) String() string { return x.s }
 
+type c01NumStringer int
+
+func (n c01NumStringer) String() string { return fmt.Sprintf("<n%d&>", int(n)) }
+
 type c01Err struct{}
 
 func (c01Err) Error() string { return "err<&>'\"" }
@@ -884,6 +888,14 @@ func c01Value(shape string) interface{} {
 		return c01Long
 	case "istr":
 		return []interface{}{"<i&>"}[0]
+	case "apos":
+		return "it's" // one special byte only: each of the five (and NUL) is escaped on its own
+	case "nul":
+		return "a\x00b"
+	case "quot":
+		return "say \"x\""
+	case "numstringer":
+		return c01NumStringer(7) // a numeric kind with a String method: printed through it, and escaped
 	}
 	return nil
 }
@@ -915,6 +927,14 @@ func printedForm(v string) string {
 		return c01Long
 	case "istr":
 		return "<i&>"
+	case "apos":
+		return "it's"
+	case "nul":
+		return "a\x00b"
+	case "quot":
+		return "say \"x\""
+	case "numstringer":
+		return "<n7&>"
 	}
 	return "?"
 }
